@@ -48,9 +48,12 @@ impl ActionWrapper {
             .insert(name.to_string(), action);
     }
 
+    /// A wrapper with a map of its own, holding a copy of every action.\
+    /// Every session adds functions of its own to its wrapper (In() is bound to the session's state table):
+    /// sharing one map between a session and the sessions it invokes made the last one started win.
     pub fn get_copy(&self) -> ActionWrapper {
         ActionWrapper {
-            actions: self.actions.clone(),
+            actions: Arc::new(Mutex::new(self.get_map_copy())),
         }
     }
 
